@@ -14,7 +14,7 @@ _L = ("static analysis over the ast of /repo/bellows: {what}. Decided for all in
       "functions within the trusted base; the clauses listed under undecided_clauses are NOT decided.")
 
 # properties whose rule set is complete enough to be claimed in MANIFEST.json
-READY = ["C01", "C02", "C03", "C04", "C05", "C06", "C07", "C08", "C09", "C10", "C11", "C12", "C13", "C15", "C16", "C17", "C18", "C19"]
+READY = ["C01", "C02", "C03", "C04", "C05", "C06", "C07", "C08", "C09", "C10", "C11", "C12", "C13", "C14", "C15", "C16", "C17", "C18", "C19", "C20"]
 
 PROPS = {
     "C01": {
